@@ -188,8 +188,10 @@ CHECKS = {
              "complete (exact integer arithmetic), nodes to sit in their owning bucket, capacities, splits only on the own path, "
              "closest_nodes to equal a brute-force XOR sort for k in 1..20, generate_id to stay inside its bucket; the Trie is "
              "compared with a dict model on every query for all key subsets of length <= 3 and random longer ones.",
-        note="Direct histories only (the table inside a simulated DHT network is exercised by C15's scenario). closest_nodes "
-             "calls are rate-limited per case by a deterministic cost estimate."),
+        note="Direct histories plus an in-situ family (every 12th table case): a simulated DHT of 8..40 real "
+             "DHTDiscoveryCommunity nodes with RandomWalk and PingChurn, loss, latency-derived RTTs and crashing nodes, bucket "
+             "sizes 2/3/8; all routing tables of all live nodes are checked every 5 virtual seconds. closest_nodes calls of the "
+             "direct family are rate-limited per case by a deterministic cost estimate."),
     "C15": dict(
         level="exploration", design="DESIGN.md 4/C15",
         technique=TECH + ": 6..12 real DHTDiscoveryCommunity nodes on SimNet under virtual time (real 300 s token rotation and "
